@@ -1,5 +1,5 @@
 /-
-Proofs/LoopWalk — the producers of `fsloop` enqueue exactly the selected nodes and list exactly
+Proofs/LoopWalk — the producer programs of `fsloop` send exactly the selected nodes and list exactly
 the accepted directories, whatever the oracle (fresh producer or inline) decides.  Helper lemmas
 for `Goat/Props/C08.lean`.
 -/
@@ -7,155 +7,128 @@ import Goat.Model.Loop
 
 namespace Goat.Loop
 
-/-! ### `sends`, `lists` are list homomorphisms -/
+/-! ### `sendsL`, `listsL`, `sizeL` are list homomorphisms -/
 
-theorem sends_append (a b : List PAct) : sends (a ++ b) = sends a ++ sends b := by
+@[simp] theorem sendsL_nil : sendsL [] = [] := by simp [sendsL]
+@[simp] theorem sendsL_cons (a : PAct) (r : List PAct) : sendsL (a :: r) = a.sends ++ sendsL r := by
+  simp [sendsL]
+@[simp] theorem listsL_nil : listsL [] = [] := by simp [listsL]
+@[simp] theorem listsL_cons (a : PAct) (r : List PAct) : listsL (a :: r) = a.lists ++ listsL r := by
+  simp [listsL]
+@[simp] theorem sizeL_nil : sizeL [] = 0 := by simp [sizeL]
+@[simp] theorem sizeL_cons (a : PAct) (r : List PAct) : sizeL (a :: r) = a.size + sizeL r := by
+  simp [sizeL]
+
+theorem sendsL_append (a b : List PAct) : sendsL (a ++ b) = sendsL a ++ sendsL b := by
   induction a with
-  | nil => rfl
-  | cons x r ih => cases x <;> simp [sends, ih]
+  | nil => simp
+  | cons x r ih => simp [ih]
 
-theorem lists_append (a b : List PAct) : lists (a ++ b) = lists a ++ lists b := by
+theorem listsL_append (a b : List PAct) : listsL (a ++ b) = listsL a ++ listsL b := by
   induction a with
-  | nil => rfl
-  | cons x r ih => cases x <;> simp [lists, ih]
+  | nil => simp
+  | cons x r ih => simp [ih]
 
-theorem sends_flatten_cons (a : List PAct) (ls : List (List PAct)) :
-    sends (a :: ls).flatten = sends a ++ sends ls.flatten := by
-  simp [sends_append]
+theorem sizeL_append (a b : List PAct) : sizeL (a ++ b) = sizeL a + sizeL b := by
+  induction a with
+  | nil => simp
+  | cons x r ih => simp [ih]; omega
 
-theorem sends_flatten_append (a b : List (List PAct)) :
-    sends (a ++ b).flatten = sends a.flatten ++ sends b.flatten := by
-  simp [sends_append]
+theorem sendsL_take_drop (k : Nat) (l : List PAct) : sendsL (l.take k) ++ sendsL (l.drop k) = sendsL l := by
+  rw [← sendsL_append, List.take_append_drop]
 
-theorem lists_flatten_append (a b : List (List PAct)) :
-    lists (a ++ b).flatten = lists a.flatten ++ lists b.flatten := by
-  simp [lists_append]
+theorem listsL_take_drop (k : Nat) (l : List PAct) : listsL (l.take k) ++ listsL (l.drop k) = listsL l := by
+  rw [← listsL_append, List.take_append_drop]
 
-/-- everything a (sub)walk sends, by whichever producer -/
-def Out.sends (o : Out) : List Item := Loop.sends o.own ++ Loop.sends o.spawned.flatten
-
-/-- every `ReadDir` of a (sub)walk, by whichever producer -/
-def Out.lists (o : Out) : List (Path × Bool) := Loop.lists o.own ++ Loop.lists o.spawned.flatten
-
-theorem Out.sends_append (a b : Out) (x : Item) :
-    (a.append b).sends.count x = a.sends.count x + b.sends.count x := by
-  simp [Out.sends, Out.append, Loop.sends_append, List.count_append]
+theorem sizeL_drop_le (k : Nat) (l : List PAct) : sizeL (l.drop k) ≤ sizeL l := by
+  have h := sizeL_append (l.take k) (l.drop k)
+  rw [List.take_append_drop] at h
   omega
 
-theorem Out.lists_append (a b : Out) (x : Path × Bool) :
-    (a.append b).lists.count x = a.lists.count x + b.lists.count x := by
-  simp [Out.lists, Out.append, Loop.lists_append, List.count_append]
-  omega
+@[simp] theorem sends_send (d : Bool) (p : Path) : (PAct.send d p).sends = [(d, p)] := by simp [PAct.sends]
+@[simp] theorem sends_spawn (p : Path) (b : List PAct) : (PAct.spawn p b).sends = sendsL b := by simp [PAct.sends]
+@[simp] theorem sends_list (p : Path) (a b : Bool) (k : Nat) : (PAct.list p a b k).sends = [] := by simp [PAct.sends]
+@[simp] theorem sends_filtD (p : Path) (a : Bool) : (PAct.filtD p a).sends = [] := by simp [PAct.sends]
+@[simp] theorem sends_filtF (p : Path) (a : Bool) : (PAct.filtF p a).sends = [] := by simp [PAct.sends]
+@[simp] theorem sends_add (p : Path) : (PAct.add p).sends = [] := by simp [PAct.sends]
+@[simp] theorem sends_chk (k : Nat) : (PAct.chk k).sends = [] := by simp [PAct.sends]
 
-/-! ### The walk sends the selected nodes (as a multiset: equal counts) -/
+@[simp] theorem lists_send (d : Bool) (p : Path) : (PAct.send d p).lists = [] := by simp [PAct.lists]
+@[simp] theorem lists_spawn (p : Path) (b : List PAct) : (PAct.spawn p b).lists = listsL b := by simp [PAct.lists]
+@[simp] theorem lists_list (p : Path) (a b : Bool) (k : Nat) : (PAct.list p a b k).lists = [(p, b)] := by simp [PAct.lists]
+@[simp] theorem lists_filtD (p : Path) (a : Bool) : (PAct.filtD p a).lists = [] := by simp [PAct.lists]
+@[simp] theorem lists_filtF (p : Path) (a : Bool) : (PAct.filtF p a).lists = [] := by simp [PAct.lists]
+@[simp] theorem lists_add (p : Path) : (PAct.add p).lists = [] := by simp [PAct.lists]
+@[simp] theorem lists_chk (k : Nat) : (PAct.chk k).lists = [] := by simp [PAct.lists]
+
+/-! ### The program sends the selected nodes (as a multiset: equal counts) -/
 
 mutual
-theorem walkNode_sends_count (c : WalkCfg) (oracle : Path → Bool) (x : Item) (p : Path) :
-    (n : Node) → (walkNode c oracle p n).sends.count x = (selNode c p n).count x
+theorem walkNode_sends_count (c : WalkCfg) (oracle : Path → Bool) (x : Item) (p : Path) (after : Nat) :
+    (n : Node) → (sendsL (walkNode c oracle p after n)).count x = (selNode c p n).count x
   | .file => by
     unfold walkNode selNode WalkCfg.accF
-    cases c.onFile <;> cases hf : c.fileFilter <;> simp [Out.sends, Loop.sends]
-    split <;> simp [Loop.sends]
+    cases c.onFile <;> cases hf : c.fileFilter <;> simp
+    split <;> simp
   | .dir l k => by
     have ih := walkKids_sends_count c oracle x (p ++ "/") k
     unfold walkNode selNode
-    simp only [Out.sends] at ih ⊢
     cases hacc : c.accD p
-    · cases c.dirFilter <;> simp [Loop.sends]
+    · cases c.dirFilter <;> simp
     · cases ho : oracle p <;> cases l <;> cases c.onDir <;> cases c.dirFilter <;>
-        simp [Loop.sends, Loop.sends_append, List.count_append, List.count_cons] at ih ⊢ <;> omega
+        simp [sendsL_append, List.count_cons] at ih ⊢ <;> omega
 theorem walkKids_sends_count (c : WalkCfg) (oracle : Path → Bool) (x : Item) (base : Path) :
-    (k : Kids) → (walkKids c oracle base k).sends.count x = (selKids c base k).count x
-  | .nil => by simp [walkKids, selKids, Out.sends, Loop.sends]
+    (k : Kids) → (sendsL (walkKids c oracle base k)).count x = (selKids c base k).count x
+  | .nil => by simp [walkKids, selKids]
   | .cons name n rest => by
-    have ih1 := walkNode_sends_count c oracle x (base ++ name) n
+    have ih1 := walkNode_sends_count c oracle x (base ++ name) (walkKids c oracle base rest).length n
     have ih2 := walkKids_sends_count c oracle x base rest
     unfold walkKids selKids
     cases skipName name
-    · simp [Out.sends_append, List.count_append, ih1, ih2]
+    · simp [sendsL_append, List.count_append, ih1, ih2]
     · simpa using ih2
 end
 
 mutual
-theorem walkNode_lists_count (c : WalkCfg) (oracle : Path → Bool) (x : Path × Bool) (p : Path) :
-    (n : Node) → (walkNode c oracle p n).lists.count x = (lstNode c p n).count x
+theorem walkNode_lists_count (c : WalkCfg) (oracle : Path → Bool) (x : Path × Bool) (p : Path) (after : Nat) :
+    (n : Node) → (listsL (walkNode c oracle p after n)).count x = (lstNode c p n).count x
   | .file => by
     unfold walkNode lstNode
-    cases c.onFile <;> cases hf : c.fileFilter <;> simp [Out.lists, Loop.lists]
-    split <;> simp [Loop.lists]
+    cases c.onFile <;> cases hf : c.fileFilter <;> simp
+    split <;> simp
   | .dir l k => by
     have ih := walkKids_lists_count c oracle x (p ++ "/") k
     unfold walkNode lstNode
-    simp only [Out.lists] at ih ⊢
     cases hacc : c.accD p
-    · cases c.dirFilter <;> simp [Loop.lists]
+    · cases c.dirFilter <;> simp
     · cases ho : oracle p <;> cases l <;> cases c.onDir <;> cases c.dirFilter <;>
-        simp [Loop.lists, Loop.lists_append, List.count_append, List.count_cons] at ih ⊢ <;> omega
+        simp [listsL_append, List.count_cons] at ih ⊢ <;> omega
 theorem walkKids_lists_count (c : WalkCfg) (oracle : Path → Bool) (x : Path × Bool) (base : Path) :
-    (k : Kids) → (walkKids c oracle base k).lists.count x = (lstKids c base k).count x
-  | .nil => by simp [walkKids, lstKids, Out.lists, Loop.lists]
+    (k : Kids) → (listsL (walkKids c oracle base k)).count x = (lstKids c base k).count x
+  | .nil => by simp [walkKids, lstKids]
   | .cons name n rest => by
-    have ih1 := walkNode_lists_count c oracle x (base ++ name) n
+    have ih1 := walkNode_lists_count c oracle x (base ++ name) (walkKids c oracle base rest).length n
     have ih2 := walkKids_lists_count c oracle x base rest
     unfold walkKids lstKids
     cases skipName name
-    · simp [Out.lists_append, List.count_append, ih1, ih2]
+    · simp [listsL_append, List.count_append, ih1, ih2]
     · simpa using ih2
 end
 
-theorem walkRoot_sends_perm (c : WalkCfg) (oracle : Path → Bool) (root : Path) (l : Bool) (k : Kids) :
-    (sends (producerSeqs c oracle root l k).flatten).Perm (selected c root l k) := by
+theorem rootProg_sends_perm (c : WalkCfg) (oracle : Path → Bool) (root : Path) (l : Bool) (k : Kids) :
+    (sendsL (rootProg c oracle root l k)).Perm (selected c root l k) := by
   rw [List.perm_iff_count]
   intro x
   have h := walkKids_sends_count c oracle x root k
-  unfold producerSeqs walkRoot selected
-  cases l <;> simp [Out.sends, Loop.sends, Loop.sends_append, List.count_append] at h ⊢
-  omega
+  unfold rootProg selected
+  cases l <;> simp [h]
 
-theorem walkRoot_lists_perm (c : WalkCfg) (oracle : Path → Bool) (root : Path) (l : Bool) (k : Kids) :
-    (lists (producerSeqs c oracle root l k).flatten).Perm (listed c root l k) := by
+theorem rootProg_lists_perm (c : WalkCfg) (oracle : Path → Bool) (root : Path) (l : Bool) (k : Kids) :
+    (listsL (rootProg c oracle root l k)).Perm (listed c root l k) := by
   rw [List.perm_iff_count]
   intro x
   have h := walkKids_lists_count c oracle x root k
-  unfold producerSeqs walkRoot listed
-  cases l <;> simp [Out.lists, Loop.lists, Loop.lists_append, List.count_append, List.count_cons] at h ⊢
-  omega
-
-/-! ### Interleavings are permutations of the concatenation -/
-
-theorem interleave_perm {α : Type} {ls : List (List α)} {l : List α} (h : Interleave ls l) :
-    l.Perm ls.flatten := by
-  induction h with
-  | done => simp
-  | dropNil _ ih => simpa using ih
-  | @take pre x xs post l _ ih =>
-    have h1 : (pre ++ (x :: xs) :: post).flatten = pre.flatten ++ x :: (xs ++ post.flatten) := by simp
-    have h2 : (pre ++ xs :: post).flatten = pre.flatten ++ (xs ++ post.flatten) := by simp
-    rw [h1]
-    rw [h2] at ih
-    exact (List.Perm.cons x ih).trans List.perm_middle.symm
-
-/-- the concatenation itself is an interleaving (producers run one after the other) -/
-theorem interleave_flatten {α : Type} (ls : List (List α)) : Interleave ls ls.flatten := by
-  induction ls with
-  | nil => exact .done
-  | cons a r ih =>
-    induction a with
-    | nil => simpa using Interleave.dropNil ih
-    | cons x xs ihx => exact Interleave.take (pre := []) ihx
-
-theorem sends_perm {a b : List PAct} (h : a.Perm b) : (sends a).Perm (sends b) := by
-  induction h with
-  | nil => exact .nil
-  | cons x _ ih => cases x <;> simp [sends, ih]
-  | swap x y l => cases x <;> cases y <;> simp [sends] <;> exact List.Perm.swap ..
-  | trans _ _ ih1 ih2 => exact ih1.trans ih2
-
-theorem lists_perm {a b : List PAct} (h : a.Perm b) : (lists a).Perm (lists b) := by
-  induction h with
-  | nil => exact .nil
-  | cons x _ ih => cases x <;> simp [lists, ih]
-  | swap x y l => cases x <;> cases y <;> simp [lists] <;> exact List.Perm.swap ..
-  | trans _ _ ih1 ih2 => exact ih1.trans ih2
+  unfold rootProg listed
+  cases l <;> simp [List.count_cons, h]
 
 end Goat.Loop
